@@ -568,7 +568,7 @@ pub fn process<I: BufRead, O: Write>(
                             for v in caps.get(2).unwrap().as_str().split(',') {
                                 let vx = v.trim();
                                 let re = Regex::new(&format!("\\b{}\\b", regex::escape(vx))).unwrap();
-                                value = re.replace_all(&value, format!("$${}", vx)).to_string();
+                                value = re.replace_all(&value, format!("$${{{}}}", vx)).to_string();
                                 //rex += &format!("(?P<{}>[^,]*?),", vx);
                                 rex += &format!(
                                     r"(?P<{}>(?:[^,)(]|\((?:[^)(]|\((?:[^)(]|\((?:[^)(]|\([^)(]*\))*\))*\))*\))*),",
